@@ -73,6 +73,23 @@ def genOps3 : List (String × R String) := [
         | Spec.Tok.op n => Py.PyTok.name n | Spec.Tok.int n => Py.PyTok.int n | Spec.Tok.data d => Py.PyTok.data d
       pure (ans hex (Gen.tapleaf_tagged_hash Crypto.sha256 Gen.OP_CODES py))),
   ("g:msg_prefix", do let m ← bytes; pure (ans hex (Gen.add_magic_prefix m))),
+  ("g:spk", do
+      let ty ← next; let h ← bytes; let _net ← next
+      let t := if ty == "p2pkh" then Gen.p2pkh_script_pub_key h else if ty == "p2sh" then Gen.p2sh_script_pub_key h
+        else if ty == "p2wpkh" then Gen.p2wpkh_script_pub_key h else if ty == "p2wsh" then Gen.p2wsh_script_pub_key h
+        else Gen.p2tr_script_pub_key h
+      pure (ans hex (t >>= Gen.script_to_bytes Gen.OP_CODES))),
+  ("g:script_commit", do
+      let ts ← toks
+      let py := ts.map fun t => match t with
+        | Spec.Tok.op n => Py.PyTok.name n | Spec.Tok.int n => Py.PyTok.int n | Spec.Tok.data d => Py.PyTok.data d
+      let dat := fun (l : List Py.PyTok) => match l[1]? with | some (Py.PyTok.data d) => hex d | _ => "?"
+      pure (ans id (do
+        let a ← Gen.script_to_p2sh_spk Crypto.sha256 Gen.OP_CODES py
+        let b ← Gen.script_to_p2wsh_spk Crypto.sha256 Gen.OP_CODES py
+        let ab ← Gen.script_to_bytes Gen.OP_CODES a
+        let bb ← Gen.script_to_bytes Gen.OP_CODES b
+        pure s!"{dat a} {dat b} {hex ab} {hex bb}"))),
   ("g:rmd", do let b ← bytes; pure (ans hex (Gen.rmd_ripemd160 b))),
   ("g:schnorr_sign", do let m ← bytes; let k ← bytes; let a ← bytes; pure (ans hex (Gen.schnorr_sign Crypto.sha256 m k a))),
   ("g:schnorr_verify", do let m ← bytes; let k ← bytes; let s ← bytes; pure (ans (fun (b : Bool) => if b then "1" else "0") (Gen.schnorr_verify Crypto.sha256 m k s))),
